@@ -134,9 +134,9 @@ def proof_ok(ctx, pr):
 def run(ctx):
     facts = gen_tables.run(["native", "cmd", "path"])
     ctx.coverage["generated_tables"] = {"native.int_sem": facts.get("native.int_sem")}
+    pr = ctx.proof("theories/Props/C04.v")     # right after the tables: they are shared files
     exe_d = vlib.build_harness()
     exe_r = vlib.build_harness(release=True)
-    pr = ctx.proof("theories/Props/C04.v")
     pr_ok = proof_ok(ctx, pr)
 
     findings = {}     # key -> first failing input (property-direct, on the implementation)
@@ -245,6 +245,8 @@ def run(ctx):
     for key, payload in findings.items():
         ctx.violation(f"{key}: {json.dumps(payload)[:300]}", payload, key=key)
     if not findings:
+        if not pr_ok or mism:
+            nc.require_stable_tables("proof / correspondence result")
         if not pr_ok:
             ctx.violation("theorem no longer checks: " + pr["failed"][:400],
                           dict(theorem_file="theories/Props/C04.v", error=pr["failed"]), no_input=True)
